@@ -22,7 +22,12 @@ func activeSources(p *sdl.Program, late bool) []*sdl.Source {
 		}
 		switch s.Via {
 		case "SetConfigLoader":
-			list = []*sdl.Source{s}
+			// one option call replaces the list with all members of the group
+			if n := len(list); s.Group != 0 && n != 0 && list[n-1].Group == s.Group && list[n-1].Via == s.Via && sameGroupRun(p, list[n-1], s) {
+				list = append(list, s)
+			} else {
+				list = []*sdl.Source{s}
+			}
 		default: // AddConfigLoader, SetConfig, AddLoaders
 			list = append(list, s)
 		}
@@ -147,4 +152,20 @@ func MergeSources(p *sdl.Program) map[string]string {
 		deepMerge(merged, s.Doc)
 	}
 	return FlattenDoc(merged)
+}
+
+// sameGroupRun: a and b are consecutive (non-late) members of one option group.
+func sameGroupRun(p *sdl.Program, a, b *sdl.Source) bool {
+	var early []*sdl.Source
+	for _, s := range p.Sources {
+		if !s.Late {
+			early = append(early, s)
+		}
+	}
+	for i := 1; i < len(early); i++ {
+		if early[i-1] == a && early[i] == b {
+			return true
+		}
+	}
+	return false
 }
